@@ -3,6 +3,7 @@ package harness
 import (
 	"fmt"
 	"os"
+	"sync/atomic"
 	"testing"
 	"testing/synctest"
 	"time"
@@ -132,6 +133,7 @@ func TestE3RequestVote(t *testing.T) {
 	defer os.RemoveAll(root)
 	stride := EnvInt("VERIF_STRIDE", 1)
 	off := int(Seed()) % stride
+	persistOrderProbe(rep, root)
 	synctest.Test(t, func(t *testing.T) {
 		time.Sleep(time.Hour)
 		now := msOf(time.Now())
@@ -185,4 +187,72 @@ func TestE3RequestVote(t *testing.T) {
 			compareSections(rep, "C08", line, impl, model, rvKeys, []string{"term", "ok"})
 		}
 	})
+}
+
+// persistOrderProbe: two requests that both change term/vote reach the node while the disk is slow: the
+// first one's write to the term/vote storage is held back, the second request (a higher term) is issued
+// meanwhile, then the write is let go. Whatever the node does about locking, when both handlers have
+// returned the term and vote on disk must be the ones in memory (C08: what was answered survives a
+// restart); a node that lets the second request finish first and then completes the first one's write
+// ends with the older pair on disk. Real time (a mutex wait is not a durable block for synctest).
+func persistOrderProbe(rep *Report, root string) {
+	tn, err := NewTNode(NodeOpts{ID: 1, Dir: root + "/order"})
+	if err != nil {
+		rep.Notes = append(rep.Notes, "persist-order probe skipped: "+err.Error())
+		return
+	}
+	call := func(kind string, term, from uint64) {
+		if kind == "RV" {
+			var r raft.RequestVoteResponse
+			tn.R.RequestVote(&raft.RequestVoteRequest{CandidateID: ID(from), Term: term, LastLogIndex: 9, LastLogTerm: term}, &r)
+		} else {
+			var r raft.AppendEntriesResponse
+			tn.R.AppendEntries(&raft.AppendEntriesRequest{LeaderID: ID(from), Term: term}, &r)
+		}
+	}
+	for _, pair := range [][2]string{{"RV", "AE"}, {"AE", "RV"}, {"RV", "RV"}, {"AE", "AE"}} {
+		pre := NodeSt{ID: 1, Role: "F", Term: 3, Log: mkLog([]uint64{1}, 0, 1), Cfg: cfg3, Com: cfg3, SV: true, ET: 300, LD: 100}
+		if err := tn.Set(pre); err != nil {
+			rep.Notes = append(rep.Notes, "persist-order probe skipped: "+err.Error())
+			return
+		}
+		line := fmt.Sprintf("PERSIST-ORDER | %s of term 5 from node 2 with its term/vote write held back, then %s of term 6 from node 3, then the write is let go", pair[0], pair[1])
+		entered, release := make(chan struct{}, 1), make(chan struct{})
+		var first atomic.Bool
+		first.Store(true)
+		tn.St.Gate = func(uint64, string) {
+			if first.CompareAndSwap(true, false) {
+				entered <- struct{}{}
+				<-release
+			}
+		}
+		doneA, doneB := make(chan struct{}), make(chan struct{})
+		go func() { call(pair[0], 5, 2); close(doneA) }()
+		held := false
+		select {
+		case <-entered:
+			held = true
+		case <-time.After(2 * time.Second):
+		}
+		go func() { call(pair[1], 6, 3); close(doneB) }()
+		overlapped := false
+		select {
+		case <-doneB:
+			overlapped = true
+		case <-time.After(150 * time.Millisecond):
+		}
+		close(release)
+		<-doneA
+		<-doneB
+		tn.St.Gate = nil
+		vs := tn.R.VerifGetState()
+		dt, dv, derr := tn.RawState.State()
+		rep.Case(line, held)
+		rep.Hit(map[bool]string{true: "persist-order:second-ran-during-write", false: "persist-order:second-waited"}[overlapped])
+		if derr != nil || dt != vs.CurrentTerm || dv != vs.VotedFor {
+			rep.Add(Finding{Kind: "oracle", Property: "C08", Oracle: "after two overlapping requests the term and vote on disk are not the ones in memory: the node has answered with a term a restart would take back", Case: line,
+				Impl:      fmt.Sprintf("memory: term=%d vote=%q; term/vote storage: term=%d vote=%q err=%v; the second request returned while the first write was held back: %v", vs.CurrentTerm, vs.VotedFor, dt, dv, derr, overlapped),
+				Signature: map[string]string{"oracle": "durable-term-vote-order"}})
+		}
+	}
 }
